@@ -8,6 +8,8 @@ CONSTANTS
     LazyDirs <- LazyDef
     Filters <- FiltersDef
     FilterKeys <- FilterKeysDef
+    Changed <- ChangedDef
+    ChangedLazy <- ChangedLazyDef
     MaxSteps = 4
 INVARIANT Inv_LoadedLazy
 PROPERTY Inv_Monotone
